@@ -28,6 +28,7 @@ FAMILIES = {
     "U8": (2, 120, 3, 260, 4),
     "BIG": (1, 300, 4, 1600, 5),
     "OP": (4, 120, 4, 260, 5),
+    "G1": (4, 120, 4, 260, 5),
 }
 UNIVERSE_SHARDS = 4
 
@@ -388,7 +389,7 @@ def refequiv_stage(tier):
 
 def c_search(prop, tier):
     # auxiliary stage in every search check: pumped haystacks compared with regexp directly (the property's own reference)
-    long_args = ["-long", "700" if tier == "quick" else "4300"]
+    long_args = ["-long", "700" if tier == "quick" else "4300", "-ladder", "q" if tier == "quick" else "t"]
     if prop == "C04":
         return run_search_family(prop, tier, prop, stages=iter_model_stages(tier), per_output=iter_trace_stage(prop),
                                  budget_scale=0.6 if tier == "quick" else 1.0, extra_args=long_args)
